@@ -161,6 +161,26 @@ def cut_slice(text, sl):
 # ------------------------------------------------------------------------------------------------
 SLICES = [
     {
+        "name": "verif_position_step",
+        "file": "uci.rs",
+        "within": r"^fn command_position\(",
+        "header": "pub(crate) fn verif_position_step(data: &mut Data, move_str: &str) -> anyhow::Result<()>",
+        "pre": "let game = data.current_game.as_mut().unwrap();\nfor _once in 0..1 {",
+        "regions": [{"start": r"^\s*for move_str in terms\.by_ref\(\) \{", "end": ("block",), "inner": True}],
+        "post": "}\nOk(())",
+        "drops": "`position` keyword handling (startpos / fen ... / moves), Game::new call and its error path, the `for move_str in terms.by_ref()` header",
+    },
+    {
+        "name": "verif_autoplay_tail",
+        "file": "autoplay.rs",
+        "within": r"^pub fn autoplay\(",
+        "header": "pub(crate) fn verif_autoplay_tail(game: &mut Game, cache: &mut TranspositionTable, search_is_running: &Arc<AtomicBool>) -> bool",
+        "pre": "let mut game = game;\nlet mut cache = cache;\nloop {",
+        "regions": [{"start": r"^\s*let next_move = match get_best_move_until_stop\(", "end": ("until", r"^    \}\s*$")}],
+        "post": "return true;\n}\nfalse",
+        "drops": "everything of the self-play loop before the search call: move list, printing, timer thread; the `loop` header",
+    },
+    {
         "name": "verif_gen_body",
         "file": "chess/mod.rs",
         "within": r"^\s*pub fn get_moves\(",
